@@ -324,7 +324,16 @@ pub fn c09(ctx: &mut Ctx) -> R {
                                 called = 0;
                                 continue;
                             }
-                            Err(e) => fail!("C09.unexpected_error", "SendRequest.proceed", "proceed failed: {}", e),
+                            Err(e) => {
+                                // an advance attempt that fails is an advance that did not succeed: the
+                                // statement demands that exactly when the flow was not ready
+                                if !premature {
+                                    fail!("C09.unexpected_error", "SendRequest.proceed", "proceed failed although can_proceed() was true: {}", e);
+                                }
+                                ctx.count("p:premature_proceed");
+                                ctx.nontrivial = true;
+                                return Ok(());
+                            }
                         }
                     }
                 }
